@@ -463,3 +463,19 @@ package gtab
 //@     invariant cov != nil && fresh(repl)
 //@   loop 4
 //@     invariant cov != nil && fresh(repl)
+
+// readGsubSubtable dispatches on 10*lookupType+format through a table of
+// reader functions (values of the unnamed type func(*parser.Parser, int64)
+// (Subtable, error): their contract is the functype below; the readers for
+// GSUB 1.1, 1.2, 2.1, 3.1, 4.1 are checked against it, the others assumed).
+//@ functype gsubReader(p *parser.Parser, pos int64) (s Subtable, err error)
+//@   requires parser.inv(p) && pos >= 0 && pos <= 4611686018427387904
+//@   ensures err == nil ==> parser.inv(p) && s != nil && (is(s, *extensionSubtable) ==> s.(*extensionSubtable) != nil)
+//@   ensures p.r == old(p.r) && faults(p.r) >= old(faults(p.r)) && (faults(p.r) > old(faults(p.r)) ==> err != nil)
+//@   modifies p.*, allelems(byte), rpos(p.r), faults(p.r)
+//@ func readGsubSubtable(p *parser.Parser, pos int64, meta *LookupMetaInfo) (s Subtable, err error)   props: C02 C18
+//@   requires parser.inv(p) && meta != nil && pos >= 0 && pos <= 4611686018427387904
+//@   requires forall k uint16 :: has(gsubReaders, k) ==> gsubReaders[k] != nil   // the package-level table holds functions only (its initialiser; not checked)
+//@   ensures err == nil ==> parser.inv(p) && s != nil && (is(s, *extensionSubtable) ==> s.(*extensionSubtable) != nil)
+//@   ensures p.r == old(p.r) && faults(p.r) >= old(faults(p.r)) && (faults(p.r) > old(faults(p.r)) ==> err != nil)
+//@   modifies p.*, allelems(byte), rpos(p.r), faults(p.r)
